@@ -131,6 +131,28 @@ def zero_mass_problems(model, inst, synth=True):
             elif abs(joint.sum() - total) > 1e-8 * total:
                 bad.append("datavector sums to %r, total %r" % (float(joint.sum()), total))
             queries = [zc, tuple(reversed(zc))] + [tuple(a for a in attrs if a in zc or a == o) for o in attrs if o not in zc]
+            # the same queries asked in bulk (conditionals by division: 0/0 on a dead separator value), plus every model clique
+            bulk_keys = list(dict.fromkeys(queries + [tuple(c_) for c_ in model.cliques] + [(a,) for a in attrs]))
+            try:
+                bulk = model.calculate_many_marginals(bulk_keys)
+            except Exception as ex:
+                bad.append("calculate_many_marginals raised %r" % ex)
+                bulk = {}
+            for q in bulk_keys:
+                if q in bulk:
+                    v = np.asarray(bulk[q].values, dtype=float)
+                    if not np.all(np.isfinite(v)):
+                        bad.append("calculate_many_marginals[%s] contains NaN" % (q,))
+                    elif abs(v.sum() - total) > 1e-8 * total:
+                        bad.append("calculate_many_marginals[%s] sums to %r, total %r" % (q, float(v.sum()), total))
+                    elif zc[0] in q and zc[1] in q:
+                        i0, i1 = q.index(zc[0]), q.index(zc[1])
+                        for c in cells:
+                            idx = [slice(None)] * len(q)
+                            idx[i0], idx[i1] = c[0], c[1]
+                            if float(np.sum(v[tuple(idx)])) > 1e-12 * total:
+                                bad.append("calculate_many_marginals[%s] gives mass to the impossible cell %s=%s" % (q, zc, tuple(c)))
+                                break
             for q in queries:
                 f = model.project(q)
                 v = np.asarray(f.values, dtype=float)
